@@ -178,9 +178,23 @@ def P4(m, R):
         if v not in ('bool(%s)' % active, 'len(%s) > 0' % active, 'len(%s) != 0' % active, '%s != []' % active, 'not not %s' % active):
             problems.append('%s = %s; it must tell whether any setting is still active (bool(%s))' % (flag, v, active))
         # after the last emission in the body
+        # the value depends on the active list only: where in the body it is taken does not matter as long as that list is the same at the end of the
+        # iteration and the flag is not read later in the same iteration (it would then be this iteration's value instead of the previous one's)
         later = loop.body[loop.body.index(a) + 1:]
-        if any(isinstance(x, ast.AugAssign) and is_name(x.target, out) for s in later for x in ast.walk(s)):
-            problems.append('output is appended after the flag is computed')
+        if any(isinstance(x, ast.Name) and x.id == flag and isinstance(x.ctx, ast.Load) for s in later for x in ast.walk(s)):
+            problems.append('%s is read later in the same iteration: it then holds this point\'s value, not the previous point\'s' % flag)
+        left = [x for s in later for x in ast.walk(s) if isinstance(x, (ast.Break, ast.Continue, ast.Return))]
+        if left:
+            problems.append('the flag is taken before the iteration can still be abandoned (L%d): a point at or beyond the end of the text, which emits nothing, '
+                            'would decide whether the final reset is written' % left[0].lineno)
+        for s in later:
+            for x in ast.walk(s):
+                if (isinstance(x, ast.Call) and isinstance(x.func, ast.Attribute) and norm(x.func.value) == active and
+                        x.func.attr in ('append', 'extend', 'insert', 'pop', 'remove', 'clear', 'sort', 'reverse')) or \
+                        (isinstance(x, (ast.Assign, ast.AugAssign, ast.Delete)) and any(
+                            norm(t_) == active or (isinstance(t_, ast.Subscript) and norm(t_.value) == active)
+                            for t_ in (x.targets if isinstance(x, (ast.Assign, ast.Delete)) else [x.target]))):
+                    problems.append('the active list is changed (%s) after the flag was taken from it' % short(x))
     init = [s for s in body[:body.index(loop)] if isinstance(s, ast.Assign) and is_name(s.targets[0], flag)]
     if not init or const_val(init[-1].value, None) is not False:
         problems.append('%s does not start False' % flag)
